@@ -248,3 +248,25 @@ Example C17_shape_example_mismatch : model_out_shape [5; 3]%nat [2; 1; 4; 4]%nat
 Proof. reflexivity. Qed.
 Example C17_branch_example : constraint_fwd XNegInf XPosInf 1 1 0 = NonReal /\ constraint_fwd XNone XNone 1 1 0 = Ok 0.
 Proof. split; reflexivity. Qed.
+
+(* ---- the shape computation as the implementation does it (rank taken from the FIRST parameter; reshape of a 0-dim tensor) ---- *)
+Theorem C17_shape_impl_partial : forall T ts p0 pbc, length p0 = length pbc ->
+  model_shape_impl (T :: ts) p0 pbc [] = match model_out_shape (T :: ts) pbc with Some r => ShapeOk r | None => BroadcastError end.
+Proof. exact model_shape_impl_documented. Qed.
+Print Assumptions C17_shape_impl_partial.
+Theorem C17_seqparam_impl_partial : forall ss ps, (ss <> [] \/ ps <> []) -> (length ss <= length ps)%nat ->
+  unsqueeze_right_impl ss (length ps - length ss) = Some (seqparam_shape ss ps).
+Proof. exact seqparam_impl_ok. Qed.
+Print Assumptions C17_seqparam_impl_partial.
+(* a first parameter of lower rank than another one (scalar m0, t1 map): the time axis is not put first - silently when the
+   sizes happen to match, with a broadcasting error otherwise (finding KF-C17-2) *)
+Theorem C17_shape_first_param_rank_refuted :
+  model_shape_impl [2]%nat [] [2; 2]%nat [] = ShapeOk [2; 2]%nat /\ model_out_shape [2]%nat [2; 2]%nat = Some [2; 2; 2]%nat
+  /\ model_shape_impl [3]%nat [] [2; 2]%nat [] = BroadcastError /\ model_out_shape [3]%nat [2; 2]%nat = Some [3; 2; 2]%nat.
+Proof. exact shape_first_param_rank_counterexample. Qed.
+Print Assumptions C17_shape_first_param_rank_refuted.
+(* 0-dim parameters together with a 0-dim sequence parameter: unsqueeze_right(x, 0) calls x.reshape() (finding KF-C17-3) *)
+Theorem C17_shape_scalar_seqparam_refuted : forall T,
+  model_shape_impl [T] [] [] [[]] = ReshapeTypeError /\ model_out_shape [T] [] = Some [T].
+Proof. exact shape_scalar_seqparam_counterexample. Qed.
+Print Assumptions C17_shape_scalar_seqparam_refuted.
